@@ -120,6 +120,6 @@ def execute(case, ctx):
 
 MANIFEST = {
     "technique": "property-based testing (Hypothesis) with a differential oracle (numpy traces of the Gibbs state) and invariants of the weights",
-    "text": "Seeded random search over models, beta in [1e-3,1e3] and level offsets; weights and all averages are compared with an independent full-Fock-space reference; normalisation, non-negativity and ratios are checked as invariants. Exploration only.",
+    "text": "Seeded random search over models, beta in [1e-3,1e3] and level offsets; weights and all averages (also after a repeated prepare(), from a copy, and after prepare() on the copy) are compared with an independent full-Fock-space reference; normalisation, non-negativity and ratios are checked as invariants. Exploration only.",
     "note": "Trusted: numpy/LAPACK, pbt/oracle.py, the runner. Tolerances scale with beta*scale as stated in the rule.",
 }
